@@ -20,7 +20,7 @@ DEVS = [("CapSingle", "RotTransformUnsorted")]
 
 
 def main():
-    a, rep, replay = parse(PROP)
+    a, rep, replay = parse(PROP, aged=True)
     rep.assumptions = ["a sample's content is a function of its label, so equal labels carry equal data", "values compared to 1e-6 of the score scale"]
     if replay is not None and replay["scenario"].get("kind") == "lifecycle_path":
         from .. import liferun as _lr
